@@ -213,7 +213,18 @@ func (c Cap) RectBound() Rect {
 		return EmptyRect()
 	}
 
-	capAngle := c.Radius().Radians()
+	// A cap within ~2e-7 radians of the full sphere cannot be bounded usefully:
+	// Radius() (an arcsine near 1) loses up to 1e-8 radians there.
+	if float64(c.radius) >= 4*(1-1e-14) {
+		return FullRect()
+	}
+
+	// pad absorbs the rounding of Radius(), of the centre's latitude and
+	// longitude, and of the latitude and longitude later computed for a point
+	// of the cap (each about one dblEpsilon), so that the rectangle contains
+	// the computed coordinates of every point the cap contains.
+	const pad = 4 * dblEpsilon
+	capAngle := c.Radius().Radians() + pad
 	allLongitudes := false
 	lat := r1.Interval{
 		Lo: latitude(c.center).Radians() - capAngle,
@@ -244,24 +255,39 @@ func (c Cap) RectBound() Rect {
 		// minus the latitude). This formula also works for negative latitudes.
 		//
 		// The formula for sin(a) follows from the relationship h = 1 - cos(a).
+		//
+		// sin(c) and cos(c) are taken directly from the (unit length) centre
+		// rather than from its latitude: near a pole cos(latitude) has a
+		// relative error of dblEpsilon/sin(c), which would be magnified
+		// into the longitude range.
 		sinA := c.radius.Sin()
-		sinC := math.Cos(latitude(c.center).Radians())
+		sinC := math.Hypot(c.center.X, c.center.Y)
 		if sinA <= sinC {
 			// Compute the angle from its sine and cosine rather than with
-			// Asin(sinA/sinC): near a ratio of 1 (a cap within ~1.5e-8 of a
-			// hemisphere centred near the equator) Asin loses up to 1.5e-8
-			// radians and the bound would not contain the cap. With cos(a)
-			// the cosine of the cap angle and cos(c) = sin(latitude),
-			// cos(A)*sin(c) = sqrt(cos(a)^2 - cos(c)^2).
+			// Asin(sinA/sinC): near a ratio of 1 Asin loses up to 1.5e-8
+			// radians and the bound would not contain the cap.
+			// cos(A)*sin(c) = sqrt(cos(a)^2 - cos(c)^2) = sqrt(sin(c)^2 - sin(a)^2);
+			// use whichever difference does not cancel (the first near the
+			// equator, the second near the poles).
 			cosA := c.radius.Cos()
-			cosC := math.Sin(latitude(c.center).Radians())
-			angleA := math.Atan2(sinA, math.Sqrt(math.Max(0, (cosA-cosC)*(cosA+cosC))))
-			// IntervalFromEndpoints maps an endpoint of exactly -Pi (which
-			// Remainder can return) to +Pi; a raw -Pi would make the
-			// interval invalid and exclude longitude 180 degrees.
-			lng = s1.IntervalFromEndpoints(
-				math.Remainder(longitude(c.center).Radians()-angleA, math.Pi*2),
-				math.Remainder(longitude(c.center).Radians()+angleA, math.Pi*2))
+			cosC := c.center.Z
+			cos2 := (cosA - cosC) * (cosA + cosC)
+			if sinC < 0.5 {
+				cos2 = (sinC - sinA) * (sinC + sinA)
+			}
+			cosAsinC := math.Sqrt(math.Max(0, cos2))
+			angleA := math.Atan2(sinA, cosAsinC)
+			// Relative errors of a few dblEpsilon in sinA and sinC change the
+			// angle by that much times tan(A); pad accordingly.
+			angleA += pad * (1 + sinA/math.Max(cosAsinC, math.SmallestNonzeroFloat64))
+			if angleA < math.Pi {
+				// IntervalFromEndpoints maps an endpoint of exactly -Pi (which
+				// Remainder can return) to +Pi; a raw -Pi would make the
+				// interval invalid and exclude longitude 180 degrees.
+				lng = s1.IntervalFromEndpoints(
+					math.Remainder(longitude(c.center).Radians()-angleA, math.Pi*2),
+					math.Remainder(longitude(c.center).Radians()+angleA, math.Pi*2))
+			}
 		}
 	}
 	return Rect{lat, lng}
